@@ -1,5 +1,5 @@
 SPECIFICATION Spec
-CONSTANTS SelfNamed = TRUE Lean = FALSE DirSet = {1, 2, 3} MaxDefs = 2 Rich = FALSE Entry = "files" Bodies = {"ok"} AsFoundTwoObjects = FALSE AsFoundPrintPath = FALSE
+CONSTANTS SelfNamed = TRUE Lean = FALSE DirSet = {1, 2, 3} MaxDefs = 2 Rich = FALSE Entry = "files" Bodies = {"ok"} Dups = FALSE AsFoundTwoObjects = FALSE AsFoundPrintPath = FALSE
 INVARIANT ResolvesExactly
 INVARIANT BadReferenceFails
 INVARIANT AcyclicWhenOk
